@@ -208,7 +208,7 @@ class C01(EngineBase):
         inplace = ops.is_inplace(step)
         crashed = False
         if "crash" in step and not inplace:
-            saved = collections.OrderedDict(AC._fuseinfos)
+            saved = collections.OrderedDict(core.CACHE._fuseinfos)
             counters = core.cache_counters()
             core.clear_lru()
             cl = {}
@@ -216,9 +216,9 @@ class C01(EngineBase):
                 if n not in cl:
                     cl[n] = S.clone(heap[n])
             total, _, _ = inject.run_counted(lambda: ops.run_step(step, cl))
-            AC._fuseinfos.clear()
-            AC._fuseinfos.update(saved)
-            AC._fi_hit, AC._fi_missed, AC._fi_missed_too_long = counters
+            core.CACHE._fuseinfos.clear()
+            core.CACHE._fuseinfos.update(saved)
+            core.CACHE._fi_hit, core.CACHE._fi_missed, core.CACHE._fi_missed_too_long = counters
             core.clear_lru()
             if "crash_n" not in step:
                 step["crash_n"] = 1 + int(step["crash"] * total) if total else 0
